@@ -693,7 +693,13 @@ fn do_wop<B: BufMut>(cx: &mut WCtx, b: &mut B, tm: &mut Tm, written: &mut Vec<u8
                     panic!("manual: chunk_mut() empty with bytes left to write");
                 }
                 // every Index/IndexMut form of UninitSlice, write_byte and as_mut_ptr
-                match (p + k) % 6 {
+                match (p + k) % 7 {
+                    6 => unsafe {
+                        let whole = c.as_uninit_slice_mut();
+                        for i in 0..k {
+                            whole[i] = std::mem::MaybeUninit::new(bytes[p + i]);
+                        }
+                    },
                     0 if k >= 1 => {
                         for i in 0..k {
                             c.write_byte(i, bytes[p + i]);
@@ -804,15 +810,25 @@ pub fn run(plan: &J, given: Option<&[J]>, rng: &mut Rng, max_ops: usize, journal
                 "writer_write" => {
                     let data = Rng::new(op.u64("seed")).bytes(op.us("n").min(1 << 16));
                     let rem = tm.remaining();
+                    let mut acc = [0usize; 4];
                     let r = catch_unwind(AssertUnwindSafe(|| {
                         let mut w = (&mut node).writer();
+                        acc[0] = w.get_ref().remaining_mut();
                         let a = w.write(&data);
                         let f = w.flush();
+                        acc[1] = w.get_ref().remaining_mut();
+                        acc[2] = w.get_mut().remaining_mut();
+                        let inner = w.into_inner();
+                        acc[3] = inner.remaining_mut();
                         (a, f)
                     }));
                     match r {
                         Ok((Ok(got), Ok(()))) => {
                             let want = data.len().min(rem);
+                            let after = { let mut t = tm.clone(); t.write(got.min(rem)); t.remaining() };
+                            if acc[0] != rem || acc[1..].iter().any(|&x| x != after) {
+                                cx.v(&["C12"], "writer-accessors", format!("Writer with room for {}, write returned {}: get_ref/get_ref/get_mut/into_inner show remaining_mut {:?} (expected {} then {})", rem, got, acc, rem, after));
+                            }
                             if got != want {
                                 cx.v(&["C12"], "writer-write-count", format!("Writer::write({} bytes) with room for {} returned {}", data.len(), rem, got));
                                 WFlow::End
